@@ -1,5 +1,5 @@
 (* Facts about the best-of loop of Six / Seven that do NOT depend on the CONTENTS of the lookup
-   tables (only on their lengths, through the totality lemmas of Proofs/C05.v, and on the slot
+   tables (only on their lengths, through the totality lemmas of Proofs/Total.v, and on the slot
    tables being well formed):
      - the reported hand is one of the selected candidates and its value is that candidate's value
        (C03: sorted witness re-ranking to the reported value);
@@ -9,12 +9,21 @@ From Coq Require Import Sorting.Permutation Sorting.Sorted.
 From CKC Require Import Base.Prelude Base.Reflect Base.SortN Spec.Layout Spec.Poker.
 From CKC Require Import Model.Card Model.Hands Model.Five Model.HandRank.
 From CKC Require Import Proofs.CardFacts Proofs.SortFacts Proofs.BitFacts Proofs.FiveFacts Proofs.ShapeFacts
-  Proofs.BestFacts Proofs.C05.
+  Proofs.BestFacts Proofs.Total.
 From CKC Require Import Gen.Consts Gen.Decks.
 Open Scope N_scope.
 
 (* n slots holding real cards, no two equal, any order *)
 Definition HandN (n : nat) (ws : list N) : Prop := length ws = n /\ Forall RealCard ws /\ NoDup ws.
+
+Lemma handN_b n ws :
+  Nat.eqb (length ws) n && forallb real_cardb ws && nodupb ws = true -> HandN n ws.
+Proof.
+  intros H. rewrite !andb_true_iff in H. destruct H as [[A B] C]. repeat split.
+  - apply Nat.eqb_eq, A.
+  - apply Forall_forall. intros w Hw. apply real_cardb_spec. rewrite forallb_forall in B. apply B, Hw.
+  - apply nodupb_NoDup, C.
+Qed.
 
 (* ---- well-formed slot tables ----------------------------------------------------------------------- *)
 Definition valid_row (n : nat) (p : list N) : Prop :=
